@@ -29,6 +29,7 @@ import (
 	vs "github.com/brocaar/lorawan/verifsync"
 
 	"verifmc/props"
+	"verifmc/spec"
 )
 
 func main() {
@@ -334,13 +335,46 @@ func runC10(tier string, sum *props.SchedSummary) []vs.Result {
 			sum.Guards = append(sum.Guards, fmt.Sprintf("C10: scenario %q completed only preemption bound %d", r.Scenario, r.BoundCompleted))
 		}
 	}
-	out := []vs.Result{res, resB, res2, res3}
+	// keys that no earlier call of the process has used (a cache of expanded keys, filled by the
+	// harness's own reference computations, would otherwise only ever be read): each execution
+	// takes two fresh keys; the oracle is the specification's key-stream and the involution
+	execNo := 0
+	freshBody := func(slot byte) func() {
+		return func() {
+			k := lorawan.AES128Key{0xF0 | slot, byte(execNo), byte(execNo >> 8), byte(execNo >> 16), 5, 6, 7, 8, 9, 10, 11, 12, 13, 14, 15, 16}
+			pt := []byte{1, 2, 3, 4, 5, 6, 7, 8, 9, 10, 11, 12, 13, 14, 15, 16, 17, 18, 19, 20}
+			ct, err := lorawan.EncryptFRMPayload(k, true, lorawan.DevAddr{1, 2, 3, 4}, 7, append([]byte(nil), pt...))
+			want := spec.XOR(pt, spec.Keystream(k[:], true, 0x01020304, 7, len(pt)))
+			back, err2 := lorawan.EncryptFRMPayload(k, true, lorawan.DevAddr{1, 2, 3, 4}, 7, append([]byte(nil), ct...))
+			fo, err3 := lorawan.EncryptFOpts(k, false, true, lorawan.DevAddr{1, 2, 3, 4}, 7, []byte{2, 6})
+			fo2, _ := lorawan.EncryptFOpts(k, false, true, lorawan.DevAddr{1, 2, 3, 4}, 7, append([]byte(nil), fo...))
+			vs.Observe(fmt.Sprintf("keystream=%v involution=%v fopts=%v errs=%v%v%v", string(ct) == string(want), string(back) == string(pt), string(fo2) == "\x02\x06", err != nil, err2 != nil, err3 != nil))
+		}
+	}
+	scF := vs.Scenario{
+		Name:  "crypto with keys first used in this execution x2 || register",
+		Setup: func() { lorawan.VerifRegistryReset(); execNo++ },
+		Threads: func() []vs.Thread {
+			return []vs.Thread{all()[0], {Name: "F1-fresh-key", Body: freshBody(1)}, {Name: "F2-fresh-key", Body: freshBody(2)}}
+		},
+		Check: func(x *vs.Execution) []vs.Problem {
+			var ps []vs.Problem
+			for _, n := range []string{"F1-fresh-key", "F2-fresh-key"} {
+				if o := x.Obs[n]; len(o) != 1 || o[0] != "keystream=true involution=true fopts=true errs=falsefalsefalse" {
+					ps = append(ps, vs.Problem{Key: "crypto/result-depends-on-schedule", What: fmt.Sprintf("%s observed %v", n, o)})
+				}
+			}
+			return ps
+		},
+	}
+	resF := vs.Explore(scF, bound, budget)
+	out := []vs.Result{res, resB, res2, res3, resF}
 	// every interleaving (no preemption bound) with state-key pruning, for the result oracles
 	allBudget := 30000
 	if tier == "thorough" {
 		allBudget = 2000000
 	}
-	for _, s := range []vs.Scenario{scA, scB, sc2, sc3} {
+	for _, s := range []vs.Scenario{scA, scB, sc2, sc3, scF} {
 		s.Name += " [all interleavings]"
 		out = append(out, vs.ExploreAll(s, allBudget))
 	}
